@@ -11,13 +11,24 @@ NOT_APPLICABLE = {}
 HOOK_COMMITS = []
 
 
+def tracked():
+    """Check modules known to git (a builder's work in progress is not claimed)."""
+    import subprocess
+    try:
+        out = subprocess.run(["git", "-C", HERE, "ls-files", "--cached", "."], stdout=subprocess.PIPE, text=True).stdout
+        return {os.path.basename(f) for f in out.split()}
+    except OSError:
+        return None
+
+
 def load():
     checks = {}
+    known = tracked()
     for l in open(os.path.join(os.path.dirname(HERE), "properties.jsonl")):
         if not l.strip():
             continue
         pid = json.loads(l)["id"]
-        if os.path.exists(os.path.join(HERE, pid.lower() + ".py")):
+        if os.path.exists(os.path.join(HERE, pid.lower() + ".py")) and (not known or pid.lower() + ".py" in known):
             mod = importlib.import_module(pid.lower())
             if getattr(mod, "REGISTRY", None):
                 checks[pid] = mod.REGISTRY
